@@ -14,8 +14,8 @@ EXTENDS Naturals, Sequences, FiniteSets, TLC, Json, IOUtils
 
 MaxOps == atoi(IOEnv.MAXOPS)
 
-Deriv == {"Debug", "Logos", "Clone", "serde::Serialize", "logos::Logos"}
-IsLogos(x) == x \in {"Logos", "logos::Logos"}
+Deriv == {"Debug", "Logos", "Clone", "serde::Serialize", "logos::Logos", "::logos::Logos", "::core::fmt::Debug"}
+IsLogos(x) == x \in {"Logos", "logos::Logos", "::logos::Logos"}
 
 Injective(s) == \A i, j \in DOMAIN s : i # j => s[i] # s[j]
 Lists == UNION {{s \in [1..n -> Deriv] : Injective(s)} : n \in 1..3}
@@ -23,7 +23,8 @@ Lists == UNION {{s \in [1..n -> Deriv] : Injective(s)} : n \in 1..3}
 RECURSIVE Keep(_)
 Keep(s) == IF s = <<>> THEN <<>> ELSE (IF IsLogos(Head(s)) THEN <<>> ELSE <<Head(s)>>) \o Keep(Tail(s))
 
-Sources == [first : Lists, trailing : BOOLEAN, second : {<<>>, <<"Debug">>, <<"Logos">>, <<"PartialEq", "Logos">>},
+(* sep: entries separated by ", " or by "," alone (a comma directly followed by `::` is lexed differently) *)
+Sources == [first : Lists, trailing : BOOLEAN, sep : {"spaced", "tight"}, second : {<<>>, <<"Debug">>, <<"Logos">>, <<"PartialEq", "Logos">>},
             extras : {"none", "doc_repr_before", "cfg_attr_after", "allow_between"},
             nlogos : 0..2]
 
@@ -48,7 +49,7 @@ Apply(op, f) ==
     [] op = "delete" -> [exit |-> 0, file |-> "absent"]
 
 Init == \/ (mode = "strip" /\ src \in Sources /\ file = "absent" /\ hist = <<>>)
-        \/ (mode = "files" /\ src = [first |-> <<"Debug", "Logos">>, trailing |-> FALSE, second |-> <<>>, extras |-> "none", nlogos |-> 1]
+        \/ (mode = "files" /\ src = [first |-> <<"Debug", "Logos">>, trailing |-> FALSE, sep |-> "spaced", second |-> <<>>, extras |-> "none", nlogos |-> 1]
             /\ file = "absent" /\ hist = <<>>)
 
 Step(op) == /\ mode = "files" /\ Len(hist) < MaxOps
